@@ -44,7 +44,9 @@ NormPath(j) == H.apath \o "!/" \o Join(H.members[j].ncomps)        \* ... or wit
 ItemOK(e) ==
   IF Mode = "confine" THEN e.m \in 0..Len(ms) ELSE
     /\ e.m \in 1..Len(ms)                                          \* it carries some member's path
-    /\ e.m >= LastM                                                \* archive order
+    /\ \/ e.m >= LastM                                             \* archive order
+       \/ /\ ContribAt(ms, e.m) # "must"                            \* (entries of one name that are DON'T-CARE
+          /\ LastSameName(ms, e.m) >= LastM                         \*  cannot be told apart by their label)
     /\ ContribAt(ms, e.m) = "must" =>
          /\ Count(e.m) < nd[e.m]                                   \* not duplicated
          /\ e.fn = ExpBase(e.m) /\ e.path \in {ExpPath(e.m), NormPath(e.m)}    \* labelled as itself
@@ -90,7 +92,7 @@ TraceFinal == /\ IsEvent("Final")
               /\ UNCHANGED <<gen, results, got, cause, nd>>
 
 InvAll == /\ Inv_Confined /\ Inv_Cleanup /\ Inv_SkipRules /\ Inv_Closed
-          /\ Mode # "confine" => /\ Inv_Members
+          /\ Mode # "confine" => /\ Inv_Members /\ Inv_OwnContent
                                  /\ IF Mode = "asbuilt" THEN Inv_IsolationAsBuilt ELSE Inv_Isolation
 
 TraceInit == /\ tid \in 1..Len(Traces) /\ l = 1 /\ H = Traces[tid].hdr
